@@ -15,7 +15,7 @@ type c06 struct{}
 func (c06) ID() string    { return "C06" }
 func (c06) Level() string { return "exploration" }
 func (c06) Rule() string {
-	return "a model of 3 services (each with a variable-bearing image, a relative build context and a relative bind mount) and a network, volume, file secret, environment-sourced secret and config: every assignment of the services to {main file, included file 1, included file 2} x nesting {flat, chain, diamond} x directory of each included file {same, sub-directory, sibling} x project_directory {absent, relative, absolute} x include syntax {short, long} x environment sources of the included project {none, own .env, one env_file, two env_files} x the variable defined in every subset of {parent environment, included environment} x content of the including project read after the include {none, override file, second document}; sibling includes with disjoint and clashing variables; conflicting and identical redefinitions; include cycles of length 1..3; an environment-sourced config/secret inside an included file. Oracle: field-level equality with the pasted model (parent environment first, included environment for what it does not define; paths joined with the included project directory); conflict/cycle -> error. distinct = distinct scenario shapes"
+	return "a model of 3 services (each with a variable-bearing image, a relative build context and a relative bind mount) and a network, volume, file secret, environment-sourced secret and config: every assignment of the services to {main file, included file 1, included file 2} x nesting {flat, chain, diamond} x directory of each included file {same, sub-directory, sibling} x project_directory {absent, relative, absolute} x include syntax {short, long} x environment sources of the included project {none, own .env, one env_file, two env_files, one absolute env_file, a relative and an absolute env_file} x the variable defined in every subset of {parent environment, included environment} x content of the including project read after the include {none, override file, second document}; sibling includes with disjoint and clashing variables; conflicting and identical redefinitions; include cycles of length 1..3; an environment-sourced config/secret inside an included file. Oracle: field-level equality with the pasted model (parent environment first, included environment for what it does not define; paths joined with the included project directory); conflict/cycle -> error. distinct = distinct scenario shapes"
 }
 func (c06) Assumptions() []string {
 	return []string{"the pasted model is computed by the reference in props/c06.go from the statement"}
@@ -87,7 +87,7 @@ func (c06) Run(c *core.Ctx) {
 							if pd != 0 && !long {
 								continue
 							}
-							for envSrc := 0; envSrc < 4; envSrc++ {
+							for envSrc := 0; envSrc < 6; envSrc++ {
 								if envSrc >= 2 && !long {
 									continue
 								}
@@ -182,6 +182,24 @@ func c06check(s c06scn) core.Outcome {
 			files["proj/envs/one.env"] = "V=from-envfile\nOTHER=o\n"
 			incVal = "from-envfile"
 		}
+	case 4:
+		// the declared env file given as an absolute path
+		envLines = "    env_file: <ROOT>/proj/envs/one.env\n"
+		files["proj/envs/one.env"] = "OTHER=o\n"
+		if s.incV {
+			files["proj/envs/one.env"] = "V=from-envfile\nOTHER=o\n"
+			incVal = "from-envfile"
+		}
+	case 5:
+		// a relative and an absolute one: the later file wins
+		envLines = "    env_file: [./envs/one.env, <ROOT>/proj/envs/two.env]\n"
+		files["proj/envs/one.env"] = "OTHER=o\n"
+		files["proj/envs/two.env"] = "OTHER2=o\n"
+		if s.incV {
+			files["proj/envs/one.env"] = "V=from-one\n"
+			files["proj/envs/two.env"] = "V=from-two\n"
+			incVal = "from-two"
+		}
 	case 3:
 		envLines = "    env_file: [./envs/one.env, ./envs/two.env]\n"
 		files["proj/envs/one.env"] = "OTHER=o\n"
@@ -240,7 +258,7 @@ func c06check(s c06scn) core.Outcome {
 	}
 	scn := &Scn{Files: files, Main: mainFiles, WD: "proj", Env: parentEnv}
 	root := scn.Materialise()
-	if s.projDir == 2 {
+	if s.projDir == 2 || s.envSrc >= 4 {
 		for k, v := range files {
 			files[k] = strings.ReplaceAll(v, "<ROOT>", root)
 		}
